@@ -26,7 +26,7 @@ from props import PROPS  # per-property configuration
 import predicates
 import shrink as shrinker
 
-TZ_DEPENDENT = [' ' + n.encode().hex() + ' ' for n in ('date_to_rfc3339', 'date_to_rfc2822')]
+TZ_DEPENDENT = [' ' + n.encode().hex() + ' ' for n in ('date_to_rfc3339', 'date_to_rfc2822', 'date_from_rfc3339', 'date_from_rfc2822')]
 
 def log(*a):
     print(*a, file=sys.stderr, flush=True)
